@@ -1,0 +1,18 @@
+//go:build verif
+
+// Verification hook for property C14 (add-only, compiled only with -tags verif): lets the
+// correspondence harness run the rule-level transformation loops on a rule it builds itself.
+
+package corazawaf
+
+// VerifC14Exec runs (*Rule).executeTransformations and returns the value and the number of errors.
+func (r *Rule) VerifC14Exec(value string) (string, int) {
+	v, errs := r.executeTransformations(value)
+	return v, len(errs)
+}
+
+// VerifC14ExecMulti runs (*Rule).executeTransformationsMultimatch and returns the values and the number of errors.
+func (r *Rule) VerifC14ExecMulti(value string) ([]string, int) {
+	vs, errs := r.executeTransformationsMultimatch(value)
+	return vs, len(errs)
+}
